@@ -342,6 +342,9 @@ void Run::set_servers_variant(int variant) {
     case 5: if (nw.size() > 1) { int f = nw[0]; nw.erase(nw.begin()); nw.push_back(f); } break;   // rotate
   }
   bool changed = nw != active;
+  std::vector<int> sa = active, sn = nw;
+  std::sort(sa.begin(), sa.end()); std::sort(sn.begin(), sn.end());
+  bool set_changed = sa != sn;   // membership change (a pure reorder keeps the same set of servers)
   W.api_seq++;
   std::string csv = servers_csv(cfg.servers, nw);
   int rc = ares_set_servers_ports_csv(c.ch, csv.c_str());
@@ -350,7 +353,7 @@ void Run::set_servers_variant(int variant) {
   if (rc == ARES_SUCCESS) {
     active = nw;
     if ((int)active.size() > max_active) max_active = (int)active.size();
-    srv_list_events.push_back({W.now_us, changed ? 1 : 0, W.seq});
+    srv_list_events.push_back({W.now_us, set_changed ? 1 : (changed ? 3 : 0), W.seq});
   } else note("set_servers_failed");
 }
 
@@ -448,6 +451,7 @@ int Run::submit(int kind, int name_sel, int type_sel, int reaction, int react_ki
       struct ares_addrinfo_hints h; memset(&h, 0, sizeof h);
       int fams[3] = {AF_UNSPEC, AF_INET, AF_INET6};
       h.ai_family = fams[fam_sel % 3];
+      if (cfg.knob("single_family")) h.ai_family = (fam_sel & 1) ? AF_INET6 : AF_INET;
       h.ai_flags = 0;
       if ((fam_sel / 3) & 1) h.ai_flags |= ARES_AI_CANONNAME;
       if ((fam_sel / 6) & 1) h.ai_flags |= ARES_AI_NOSORT;
@@ -461,6 +465,7 @@ int Run::submit(int kind, int name_sel, int type_sel, int reaction, int react_ki
     case K_GETHOSTBYNAME: {
       int fams[3] = {AF_INET, AF_INET6, AF_UNSPEC};
       int fam = fams[fam_sel % 3];
+      if (cfg.knob("single_family") && fam == AF_UNSPEC) fam = AF_INET;
       reqs[(size_t)token].family = fam;
       ares_gethostbyname(c.ch, name.c_str(), fam, cb_host, arg);
       break;
@@ -490,6 +495,14 @@ int Run::submit(int kind, int name_sel, int type_sel, int reaction, int react_ki
   r.in_call = false;
   if (r.cb_count > 0) { r.done_sync = true; note("req_done_sync"); }
   return token;
+}
+
+int Run::pick_kind(int64_t a) const {
+  int64_t mask = cfg.knob("kind_mask", (1 << K_NKINDS) - 1);
+  std::vector<int> ks;
+  for (int k = 0; k < K_NKINDS; k++) if (mask & (1 << k)) ks.push_back(k);
+  if (ks.empty()) return (int)(a % K_NKINDS);
+  return ks[(size_t)a % ks.size()];
 }
 
 void Run::complete(int token, int status, int timeouts, Delivered &d) {
@@ -703,7 +716,7 @@ void Run::exec_step(const Step &s) {
   W.mix_shape(0x5700 + (uint64_t)s.k);
   int chan = 0;
   switch (s.k) {
-    case S_REQ: if (pre_req && pre_req(*this, s)) break; submit((int)(s.a % K_NKINDS), (int)s.b, (int)s.c, (int)(s.d % R_NREACT), (int)(s.d / R_NREACT), false, chan, (int)(s.d / (R_NREACT * K_NKINDS) + s.c / 7)); break;
+    case S_REQ: if (pre_req && pre_req(*this, s)) break; submit(pick_kind(s.a), (int)s.b, (int)s.c, (int)(s.d % R_NREACT), (int)(s.d / R_NREACT), false, chan, (int)(s.d / (R_NREACT * K_NKINDS) + s.c / 7)); break;
     case S_CANCEL: do_cancel(chan); break;
     case S_STALL: W.now_us += (int64_t)s.a * 1000; W.deliver_due(); note("stall"); break;
     case S_ADV: {
@@ -741,7 +754,10 @@ void Run::exec_step(const Step &s) {
         case 0: f.done = true; W.bump("net.drop"); break;
         case 1: W.add_flight(f.kind, f.at + 1 + s.c % 100000, f.fd, f.data, f.src, f.resp_id); W.bump("net.dup"); break;
         case 2: f.at += 1000 + (s.c % 3000000); W.bump("net.delay"); break;
-        case 3: if (!f.data.empty() && (f.kind == FL_DGRAM)) { f.data[(size_t)(s.c % (int64_t)f.data.size())] ^= (char)(1 + (s.c >> 8) % 255); if (f.resp_id >= 0) { W.resps[(size_t)f.resp_id].defect |= DEF_GARBAGE; } W.bump("net.corrupt"); } break;
+        case 3: if (f.data.size() > 12 && (f.kind == FL_DGRAM)) {
+          // corrupt only the header / question region: answer data (which carries the provenance markers) is never forged by noise
+          size_t lim = 12; while (lim < f.data.size() && f.data[lim] != 0 && (unsigned char)f.data[lim] < 64) lim += 1 + (unsigned char)f.data[lim]; lim += 5; if (lim > f.data.size()) lim = f.data.size();
+          f.data[(size_t)(s.c % (int64_t)lim)] ^= (char)(1 + (s.c >> 8) % 255); if (f.resp_id >= 0) { W.resps[(size_t)f.resp_id].tainted = true; } W.bump("net.corrupt"); } break;
         case 4: f.at = W.now_us; W.bump("net.expedite"); break;
       }
       break;
